@@ -283,28 +283,39 @@ def molecular(ctx):
     from grid.molgrid import MolGrid
 
     rg = radial_grids()["becke-gc12"]
-    coords = np.array([[0.0, 0.0, -0.8], [0.1, 0.3, 0.9]]) + lattice.jitter(ctx.seed, "mol", 0.0, 0.03)
-    nums = np.array([6, 8])
+    coords3 = np.array([[0.0, 0.0, -0.8], [0.1, 0.3, 0.9], [1.9, -0.4, 0.2]]) + lattice.jitter(ctx.seed, "mol", 0.0, 0.03)
     with warnings.catch_warnings():
         warnings.simplefilter("ignore")
-        ats = [AtomGrid(rg, degrees=[11], center=coords[0], rotate=0), AtomGrid(rg, degrees=[9], center=coords[1], rotate=7)]
-        mg = MolGrid(nums, ats, BeckeWeights(order=3), store=True)
-        f = np.exp(-0.6 * np.sum((mg.points - coords[0]) ** 2, axis=1)) + 0.5 * np.exp(-0.9 * np.sum((mg.points - coords[1]) ** 2, axis=1)) * (1 + mg.points[:, 0])
-        q = np.vstack([eval_points(rg, coords[0], ctx.seed)[:5], eval_points(rg, coords[1], ctx.seed)[3:7]])
-        total = mg.interpolate(f.copy())
-        parts = []
-        for a in range(2):
-            lo, hi = mg.indices[a], mg.indices[a + 1]
-            parts.append(ats[a].interpolate((mg.aim_weights * f)[lo:hi]))
-        for kw in ({}, {"deriv": 1}, {"deriv": 1, "only_radial_derivs": True}):
-            ctx.count(len(q), section="molecular")
-            got = np.asarray(total(q, **kw), dtype=float)
-            kw2 = {("only_radial_deriv" if k == "only_radial_derivs" else k): v for k, v in kw.items()}
-            ref = sum(np.asarray(p(q, **kw2), dtype=float) for p in parts)
-            ctx.nontrivial(("mol", repr(sorted(kw))), section="molecular")
-            if got.shape != ref.shape or _gt(np.max(np.abs(got - ref)), 1e-12 * (1 + np.max(np.abs(ref)))):
-                ctx.violation("molecular:not-sum-of-atomic-interpolants", f"MolGrid.interpolate({kw}) differs from the sum of atomic "
-                              f"interpolants of w_A f", {"route": "molecular", "kwargs": repr(kw)})
+        for natoms in (2, 3):
+            coords = coords3[:natoms]
+            nums = np.array([6, 8, 1])[:natoms]
+            ats = [AtomGrid(rg, degrees=[11, 9, 7][a:a + 1], center=coords[a], rotate=(0, 7, 3)[a]) for a in range(natoms)]
+            mg = MolGrid(nums, ats, BeckeWeights(order=3), store=True)
+            d0 = np.sum((mg.points - coords[0]) ** 2, axis=1)
+            d1 = np.sum((mg.points - coords[1]) ** 2, axis=1)
+            pos = np.exp(-0.6 * d0) + 0.5 * np.exp(-0.9 * d1) * (1 + mg.points[:, 0]) ** 2
+            # functions of either sign, sign-changing ones, and one that is EXACTLY zero on most of the far atoms' points
+            # (steep Gaussian that underflows): added after seeded change C09-H (atoms whose w_A f has no positive value
+            # were skipped as "vanishing")
+            funcs = {"positive": pos, "negative": -pos, "sign-changing": pos * np.sin(2.0 * mg.points[:, 2] + 0.3),
+                     "negative-with-exact-zeros": -np.exp(-40.0 * d0) - np.exp(-40.0 * d1)}
+            q = np.vstack([eval_points(rg, coords[0], ctx.seed)[:5], eval_points(rg, coords[1], ctx.seed)[3:7]])
+            for fname, f in funcs.items():
+                total = mg.interpolate(f.copy())
+                parts = []
+                for a in range(natoms):
+                    lo, hi = mg.indices[a], mg.indices[a + 1]
+                    parts.append(ats[a].interpolate((mg.aim_weights * f)[lo:hi]))
+                for kw in ({}, {"deriv": 1}, {"deriv": 1, "only_radial_derivs": True}):
+                    ctx.count(len(q), section="molecular")
+                    got = np.asarray(total(q, **kw), dtype=float)
+                    kw2 = {("only_radial_deriv" if k == "only_radial_derivs" else k): v for k, v in kw.items()}
+                    ref = sum(np.asarray(p(q, **kw2), dtype=float) for p in parts)
+                    ctx.nontrivial(("mol", natoms, fname, repr(sorted(kw))), section="molecular")
+                    if got.shape != ref.shape or _gt(np.max(np.abs(got - ref)), 1e-12 * (1 + np.max(np.abs(ref)))):
+                        ctx.violation("molecular:not-sum-of-atomic-interpolants", f"MolGrid.interpolate({kw}) of a {fname} function on {natoms} atoms "
+                                      f"differs from the sum of atomic interpolants of w_A f", {"route": "molecular", "kwargs": repr(kw)})
+        f = pos
         ctx.count(section="molecular")
         try:
             MolGrid(nums, ats, BeckeWeights(), store=False).interpolate(f)
